@@ -355,6 +355,16 @@ def _under_subset_test(v: FuncView, node) -> bool:
         d = v.resolve(node.args[0])
         if isinstance(d, ast.ListComp) and any(_is_subset_call(x) or (isinstance(x, ast.Compare) and isinstance(x.ops[0], (ast.LtE, ast.GtE))) for g in d.generators for i in g.ifs for x in ast.walk(i)):
             return True
+    # the loop that drives the insertion ranges over a pre-selected collection: `for e in filter(set(nodes).issuperset, edges)`,
+    # `for e in [e for e in edges if set(e) <= wanted]`
+    for lp in v.enclosing_all(node, (ast.For,)):
+        it = v.inline(lp.iter)
+        if isinstance(it, ast.Call) and norm(it.func) == "filter" and it.args:
+            pred = it.args[0]
+            if (isinstance(pred, ast.Attribute) and pred.attr in ("issubset", "issuperset")) or any(_is_subset_call(x) for x in ast.walk(pred)):
+                return True
+        if isinstance(it, (ast.ListComp, ast.GeneratorExp, ast.SetComp)) and any(_is_subset_call(x) or (isinstance(x, ast.Compare) and isinstance(x.ops[0], (ast.LtE, ast.GtE))) for g in it.generators for i_ in g.ifs for x in ast.walk(i_)):
+            return True
     for i in walk_no_nested(v.fi.node):
         if isinstance(i, ast.If) and any(_is_subset_call(x) or (isinstance(x, ast.Compare) and len(x.ops) == 1 and isinstance(x.ops[0], (ast.LtE, ast.GtE, ast.Lt, ast.Gt)) and isinstance(v.kind(x.left), type(v.kind(x.comparators[0]))) and "SET" in repr(v.kind(x.left))) for x in ast.walk(i.test)):
             tid = v.cfg.by_ast.get(id(i.test))
